@@ -100,7 +100,16 @@ def prim_check(prop, args, plan, rule, trusted):
         chk.violation(dict(kind='crash', case='%s:%s:%s' % (r['group'], kind, func)),
                       dict(group=r['group'], cmd=r['cmd'], status=r['rc'], stderr_tail=r['err'][-4000:], last_records=last,
                            reproduce='build drv/prim.c against the asan skeleton library (checks/c16.py:build_prim) and run: ' + r['cmd']))
+    # Disagreements that rest on a convention or on an ambiguous clause are recorded, never asserted:
+    #  * X.690 8.5.7.4 d) (exponent-length form 11) says "X octets" and "third up to the (X plus 3)th" in one sentence;
+    #  * the two-digit-year window of UTCTime is a convention (asn1c pivots at 60, RFC 5280 at 50).
+    record_only = ('real_decode_form11',)
+    record_only_cases = ('asn_UT2time:years-1950-1959-read-as-2050-2059',)
+    recorded = {}
     for v in res['vlines']:
+        if v['name'] in record_only or v['case'] in record_only_cases:
+            recorded[v['name'] + ' ' + v['case']] = res['cases'].get((v['name'], v['case']))
+            continue
         chk.violation(dict(kind=v['name'], case=v['case']),
                       dict(input=v['input'], detail=v['detail'], group=v['group'], tier=tier,
                            total_violations_of_this_case=res['cases'].get((v['name'], v['case'])),
@@ -115,7 +124,7 @@ def prim_check(prop, args, plan, rule, trusted):
             samples.append(s)
     stats = dict(subchecks=res['subs'],
                  violation_cases={'%s %s' % k: v for k, v in sorted(res['cases'].items())},
-                 recorded_not_asserted=res['notes'], process_wall_s=res['walls'], crashes=len(res['crashes']))
+                 recorded_not_asserted=res['notes'], recorded_disagreements_on_ambiguous_clauses=recorded, process_wall_s=res['walls'], crashes=len(res['crashes']))
     cov = dict(evaluations=sum(s['evaluations'] for s in res['subs'].values()),
                distinct_nontrivial=sum(s['distinct'] for s in res['subs'].values()),
                rule=rule, samples=samples, stats=stats, trusted_base=trusted)
